@@ -66,7 +66,7 @@ class x12xml_simple(x12xml):
         seg_node_id = self._get_node_id(seg_node, parent, seg_data)
         (xname, attrib) = self._get_seg_info(seg_node_id)
         self.writer.push(xname, attrib)
-        for i in range(len(seg_data)):
+        for i in range(min(len(seg_data), seg_node.get_child_count())):
             child_node = seg_node.get_child_node_by_idx(i)
             if child_node.usage == 'N' or seg_data.get('%02i' % (i + 1)).is_empty():
                 pass  # Do not try to ouput for invalid or empty elements
@@ -74,7 +74,7 @@ class x12xml_simple(x12xml):
                 (xname, attrib) = self._get_comp_info(seg_node_id)
                 self.writer.push(xname, attrib)
                 comp_data = seg_data.get('%02i' % (i + 1))
-                for j in range(len(comp_data)):
+                for j in range(min(len(comp_data), child_node.get_child_count())):
                     subele_node = child_node.get_child_node_by_idx(j)
                     (xname, attrib) = self._get_subele_info(subele_node.id)
                     self.writer.elem(xname, comp_data[j].get_value(), attrib)
